@@ -9,9 +9,9 @@ type Sched struct {
 	Aggro int
 }
 
-func NewSched(seed uint64, aggro int) *Sched { return &Sched{Hits: map[string]int{}, Aggro: aggro} }
-func (s *Sched) Install()                    {}
-func Uninstall()                             {}
-func (s *Sched) Signature() uint64           { return 0 }
-func (s *Sched) Total() uint64               { return 0 }
+func NewSched(seed uint64, aggro int) *Sched  { return &Sched{Hits: map[string]int{}, Aggro: aggro} }
+func (s *Sched) Install()                     {}
+func Uninstall()                              {}
+func (s *Sched) Signature() uint64            { return 0 }
+func (s *Sched) Total() uint64                { return 0 }
 func (s *Sched) HitsSnapshot() map[string]int { return s.Hits }
